@@ -151,6 +151,9 @@ class _Canon(ast.NodeTransformer):
             return f.value
         if name in ("copy", "asarray", "asanyarray") and len(node.args) == 1 and not node.keywords:
             return node.args[0]
+        # count_nonzero(<comparison>) == sum(<comparison>) (a boolean mask)
+        if name == "count_nonzero" and len(node.args) == 1 and not node.keywords and isinstance(node.args[0], (ast.Compare, ast.BoolOp)) or (name == "count_nonzero" and len(node.args) == 1 and not node.keywords and isinstance(node.args[0], ast.UnaryOp) and isinstance(node.args[0].op, (ast.Invert, ast.Not))):
+            return ast.Call(func=ast.Name(id="sum", ctx=ast.Load()), args=node.args, keywords=[])
         if name in COMMUTATIVE and not node.keywords:
             node.args = sorted(node.args, key=ast.unparse)
         if name in ("arange", "zeros", "ones", "empty", "linspace", "full"):
